@@ -80,7 +80,7 @@ func readerAdapters(p *Prog) []readerAdapter {
 		})
 		for i := 0; i < st.NumFields(); i++ {
 			f := st.Field(i)
-			if f.Name() == "r" || f == ra.envF || f == ra.cursorF {
+			if N(f) == "r" || f == ra.envF || f == ra.cursorF {
 				continue
 			}
 			if isNamed(f.Type(), "io", "Reader") || isPtrTo(f.Type(), "bytes", "Buffer") {
@@ -97,7 +97,7 @@ func (ra readerAdapter) isPayloadRead(call ssa.CallInstruction) bool {
 	cc := call.Common()
 	var recv ssa.Value
 	switch {
-	case cc.IsInvoke() && cc.Method.Name() == "Read":
+	case cc.IsInvoke() && N(cc.Method) == "Read":
 		recv = cc.Value
 	case IsCallTo(call, "(*bytes.Buffer).Read", "(*bytes.Buffer).WriteTo", "(*bytes.Buffer).Next", "(*bytes.Buffer).ReadByte"):
 		recv = cc.Args[0]
